@@ -121,6 +121,25 @@ func emitExec(tr *Trace, sc *Scenario, n int, res *execResult, st *driveStats) {
 
 // dfs enumerates all schedules of sc (thread choices at non-quiet points), up to maxExecs executions.
 func dfs(sc *Scenario, tr *Trace, st *driveStats, maxExecs int) {
+	dfsOrdered(sc, tr, st, maxExecs, false)
+	if !st.Exhausted {
+		// the budget cut the search off: the unexplored part is the one where the alphabetically later
+		// threads move first; spend half the budget again from the other end
+		st2 := &driveStats{Distinct: st.Distinct}
+		dfsOrdered(sc, tr, st2, maxExecs/2, true)
+		st.Execs += st2.Execs
+		st.Events += st2.Events
+		st.Steps += st2.Steps
+		st.Deadlocks += st2.Deadlocks
+		st.Stuck += st2.Stuck
+		st.Overruns += st2.Overruns
+		if st2.StuckMsg != "" {
+			st.StuckMsg = st2.StuckMsg
+		}
+	}
+}
+
+func dfsOrdered(sc *Scenario, tr *Trace, st *driveStats, maxExecs int, descending bool) {
 	type node struct {
 		n   int // number of enabled threads at this choice
 		idx int
@@ -133,17 +152,23 @@ func dfs(sc *Scenario, tr *Trace, st *driveStats, maxExecs int) {
 			if depth < len(stack) {
 				nd := stack[depth]
 				depth++
+				k := nd.idx
 				if nd.n != len(enabled) {
 					diverged = true
-					if nd.idx < len(enabled) {
-						return nd.idx
+					if k >= len(enabled) {
+						k = 0
 					}
-					return 0
 				}
-				return nd.idx
+				if descending {
+					return len(enabled) - 1 - k
+				}
+				return k
 			}
 			stack = append(stack, node{n: len(enabled), idx: 0})
 			depth++
+			if descending {
+				return len(enabled) - 1
+			}
 			return 0
 		}
 		res := execute(sc, choose)
